@@ -34,6 +34,9 @@ pub(crate) struct Thread {
 
     locals: LocalMap,
 
+    /// Token used by `thread::park` / `Thread::unpark`, created on first use.
+    pub(super) park_token: Option<super::Notify>,
+
     /// `tracing` span used to associate diagnostics with the current thread.
     span: tracing::Span,
 }
@@ -102,6 +105,7 @@ impl Thread {
             last_yield: None,
             yield_count: 0,
             locals: HashMap::new(),
+            park_token: None,
         }
     }
 
